@@ -510,12 +510,23 @@ func (g *gen) elabField(x *Expr, e *env) (Val, error) {
 			if v, ok := g.pkgConst(x.Args[0].S, x.S); ok {
 				return v, nil
 			}
-			// package-qualified sentinel error, e.g. io.EOF
+			// package-qualified sentinel error, e.g. io.EOF — or any other package-level variable of an imported
+			// package (msgpcode.Uint64 is a `var`): its current value, read like the code reads it
 			for _, sp := range g.prog.prog.AllPackages() {
 				if sp.Pkg.Name() == x.Args[0].S {
 					if gl, ok := sp.Members[x.S].(*ssa.Global); ok {
 						if t, ok := sentinelErr(gl); ok {
 							return Val{T: t, S: "Iface", GoT: gl.Type().(*types.Pointer).Elem()}, nil
+						}
+						if g.fn != nil {
+							for _, imp := range g.fn.Pkg.Pkg.Imports() {
+								if imp == sp.Pkg {
+									gv := g.val(gl)
+									if gv.L != nil {
+										return Val{T: g.loadLoc(e.st, gv.L), S: gv.L.Sort, GoT: gv.L.GoT}, nil
+									}
+								}
+							}
 						}
 					}
 				}
